@@ -21,6 +21,7 @@ import (
 
 	c "github.com/goplus/llgo/runtime/internal/clite"
 	"github.com/goplus/llgo/runtime/internal/clite/pthread/sync"
+	"github.com/goplus/llgo/runtime/internal/runtime/math"
 )
 
 // -----------------------------------------------------------------------------
@@ -51,12 +52,13 @@ type Chan struct {
 }
 
 func NewChan(eltSize, cap int) *Chan {
-	if cap < 0 {
+	mem, overflow := math.MulUintptr(uintptr(eltSize), uintptr(cap))
+	if overflow || mem > maxAlloc || cap < 0 {
 		panic(plainError("makechan: size out of range"))
 	}
 	ret := new(Chan)
 	if cap > 0 {
-		ret.data = AllocU(uintptr(cap * eltSize))
+		ret.data = AllocU(mem)
 		ret.cap = cap
 	}
 	ret.mutex.Init(nil)
